@@ -3,7 +3,6 @@ using SP_c4_b = SplineTrajectory::CubicSplineND<4>;
 using TM_c4_b = SplineTrajectory::QuadInvTimeMap;
 using SM_c4_b = SplineTrajectory::IdentitySpatialMap<4>;
 OPT_REGISTER_ONE(C12, P_C12, c4_b, SP_c4_b, TM_c4_b, SM_c4_b, false, 1)
-#ifndef STSIM_TSAN
 OPT_REGISTER_ONE(C07, P_C07, c4_b, SP_c4_b, TM_c4_b, SM_c4_b, false, 1)
 OPT_REGISTER_ONE(C08, P_C08, c4_b, SP_c4_b, TM_c4_b, SM_c4_b, false, 1)
 OPT_REGISTER_ONE(C09, P_C09, c4_b, SP_c4_b, TM_c4_b, SM_c4_b, false, 1)
@@ -11,4 +10,3 @@ OPT_REGISTER_ONE(C10, P_C10, c4_b, SP_c4_b, TM_c4_b, SM_c4_b, false, 1)
 OPT_REGISTER_ONE(C15, P_C15, c4_b, SP_c4_b, TM_c4_b, SM_c4_b, false, 1)
 OPT_REGISTER_ONE(C16, P_C16, c4_b, SP_c4_b, TM_c4_b, SM_c4_b, false, 1)
 OPT_REGISTER_ONE(C19, P_C19, c4_b, SP_c4_b, TM_c4_b, SM_c4_b, false, 1)
-#endif
